@@ -219,7 +219,7 @@ def emit_multi(case, r):
 
 def _numtxt(x):
     """tier-level numbers are converted by the reader (float / int): compare by value through repr(float())"""
-    return repr(float(x))
+    return repr(float(x) + 0.0)
 
 
 def model_expr(case):
